@@ -203,6 +203,23 @@ static int drive(int start, int nexec, int nops)
 	{
 		vh_srand(s0 * 1000003ull + (uint64_t)x); /* executions are independent: restartable at any index */
 		fresh();
+		if (x % 40 == 39)
+		{
+			/* a buffer that is already large, then single requests of more than half / more than all of its size
+			 * (growth by a factor is not enough), a reset of a large buffer followed by ordinary appends */
+			static const int first[] = {5000, 8200, 9005, 16000, 33000, 66000};
+			static const int then[] = {4200, 9000, 20000, 40005, 70000, 100000};
+			do_append(first[vh_below(6)], (int)vh_below(256), 1 + (int)vh_below(6), (int)vh_below(2));
+			do_append((int)vh_below(40), 65, 1, 0);
+			do_append(then[vh_below(6)], (int)vh_below(256), 1 + (int)vh_below(6), (int)vh_below(2));
+			if (vh_below(2))
+				do_memset(printbuf_length(pb) + 30000, 7, 10);
+			do_sprintf(200 + (int)vh_below(3000), 66, (int)vh_below(2));
+			do_reset();
+			do_append(33 + (int)vh_below(300), 67, 1, (int)vh_below(2));
+			do_append(then[vh_below(6)], 68, 3, 0);
+			continue;
+		}
 		int ops = 1 + (int)vh_below((uint32_t)nops);
 		for (int i = 0; i < ops; i++)
 		{
@@ -251,8 +268,9 @@ static int drive(int start, int nexec, int nops)
 				switch (vh_below(6))
 				{
 				case 0: do_append(-1 - (int)vh_below(5), 1, 0, 0); break;
-				case 1: do_append(INT_MAX - len, 1, 0, 0); break;
-				case 2: do_append(INT_MAX, 1, 0, 0); break;
+				/* (also through the inline fast-path macro of printbuf.h, which must fall back to the checked function) */
+				case 1: do_append(INT_MAX - len, 1, 0, (int)vh_below(2)); break;
+				case 2: do_append(INT_MAX - (int)vh_below(3), 1, 0, (int)vh_below(2)); break;
 				case 3: do_memset(-2 - (int)vh_below(3), 1, 1); break;
 				case 4: do_memset(-1, 1, -1 - (int)vh_below(3)); break;
 				default: do_memset(len + 1 + (int)vh_below(5), 1, INT_MAX - len); break;
@@ -263,7 +281,7 @@ static int drive(int start, int nexec, int nops)
 				if (vh_below(2))
 					do_memset(INT_MAX - 7 + (int)vh_below(8), 2, 0);
 				else
-					do_append(INT_MAX - len - 1 - (int)vh_below(7), 1, 0, 0);
+					do_append(INT_MAX - len - 1 - (int)vh_below(7), 1, 0, (int)vh_below(2));
 				break;
 			}
 		}
